@@ -75,7 +75,7 @@ def rand_scalar(rng, cplx):
 
 
 def gen(rng, N, cplx):
-    kind = str(rng.choice(['noise', 'tone', 'int', 'ar', 'int16']))
+    kind = str(rng.choice(['noise', 'tone', 'int', 'ar', 'int16'] + (['realc'] if cplx else [])))
     if kind == 'int16':
         x = rng.integers(-32767, 32768, size=N).astype(float) + (1j * rng.integers(-32767, 32768, size=N) if cplx else 0)
         return x, kind
@@ -205,8 +205,8 @@ def one_function(name, x, cfg, c, rtol=1e-6):
     return compare(out0, out1, c, rtol)
 
 
-def class_outputs(cls, x, cfg, NFFT, sampling):
-    p = E.build(cls, x, cfg, NFFT=NFFT, sampling=sampling, scale_by_freq=False)
+def class_outputs(cls, x, cfg, NFFT, sampling, route='fresh', prev=None):
+    p = E.build(cls, x, cfg, NFFT=NFFT, sampling=sampling, scale_by_freq=False, route=route, prev=prev)
     psd = np.array(p.psd)
     out = {'psd': (psd, 0 if cls == 'pmusic' else 1 if cls == 'pev' else 2)}
     for k, v in E.model_params(p).items():
@@ -217,9 +217,9 @@ def class_outputs(cls, x, cfg, NFFT, sampling):
     return out
 
 
-def one_class(cls, x, cfg, NFFT, sampling, c, rtol=1e-6):
+def one_class(cls, x, cfg, NFFT, sampling, c, rtol=1e-6, route='fresh'):
     out0 = class_outputs(cls, x, cfg, NFFT, sampling)
-    out1 = class_outputs(cls, c * x, cfg, NFFT, sampling)
+    out1 = class_outputs(cls, c * x, cfg, NFFT, sampling, route)
     return compare(out0, out1, c, rtol)
 
 
@@ -263,7 +263,7 @@ def replay(rep):
             return not one_criterion(r['estimator'], np.real(x), r['N'], float.fromhex(r['m']))
         if r['form'] == 'function':
             return not one_function(r['estimator'], x, cfg, c)
-        return not one_class(r['estimator'], x, cfg, r.get('NFFT'), r.get('sampling', 1.0), c)
+        return not one_class(r['estimator'], x, cfg, r.get('NFFT'), r.get('sampling', 1.0), c, route=r.get('route', 'fresh'))
     except Exception:
         return False
 
@@ -401,7 +401,8 @@ def run(ctx):
 
     # ---------------- property-directed search: every functional estimator
     nextreme = 2 * len(FUNCS)
-    for it in range(nextreme + ctx.q(170, 1700)):
+    nrealc = len(FUNCS)
+    for it in range(nextreme + nrealc + ctx.q(170, 1700)):
         name = FUNCS[it % len(FUNCS)]
         cplx = bool(rng.integers(0, 2)) if name != 'lpc' else False
         N = int(rng.integers(16, 65))
@@ -411,6 +412,11 @@ def run(ctx):
             N = int(rng.integers(32, 49))
             x = rng.integers(-32767, 32768, size=N).astype(float) + (1j * rng.integers(-32767, 32768, size=N) if cplx else 0); kind = 'int16-extreme'
             c = 1e3 * (np.exp(1j * rng.uniform(0, 2 * np.pi)) if cplx else 1.0)
+        elif it < nextreme + nrealc and name != 'lpc':
+            # real samples declared complex (imaginary part exactly zero) times a genuinely complex scalar, for every estimator
+            cplx = True
+            x, kind = E.gen_data(rng, N, True, 'realc')
+            c = rand_scalar(rng, True)
         else:
             x, kind = gen(rng, N, cplx)
             c = rand_scalar(rng, cplx)
@@ -489,10 +495,13 @@ def run(ctx):
 
     # ---------------- every PSD class
     nextreme = 2 * len(E.CLASSES)
-    for it in range(nextreme + ctx.q(96, 960)):
+    nrealc = len(E.CLASSES)
+    for it in range(nextreme + nrealc + ctx.q(96, 960)):
         cls = E.CLASSES[it % len(E.CLASSES)]
         cplx = bool(rng.integers(0, 2)); N = int(rng.integers(16, 65))
-        x, kind = gen(rng, N, cplx)
+        if nextreme <= it < nextreme + nrealc:
+            cplx = True
+        x, kind = gen(rng, N, cplx) if not (nextreme <= it < nextreme + nrealc) else E.gen_data(rng, N, True, 'realc')
         if it < nextreme:
             cplx = it >= len(E.CLASSES); N = int(rng.integers(32, 49))
             x = rng.integers(-32767, 32768, size=N).astype(float) + (1j * rng.integers(-32767, 32768, size=N) if cplx else 0); kind = 'int16-extreme'
@@ -503,17 +512,19 @@ def run(ctx):
         sampling = float(rng.choice([1.0, 7.5, 1024.0]))
         c = rand_scalar(rng, cplx) if it >= nextreme else 1e3 * (np.exp(1j * rng.uniform(0, 2 * np.pi)) if cplx else 1.0)
         tag = 'complex' if cplx else 'real'
+        route = E.pick_route(rng)             # the object holding c*x: fresh, or one that computed an estimate before and was re-assigned
+        ctx.count('search/class/route/%s' % route)
         ctx.count('search/class/%s/%s/%s' % (cls, tag, kind))
         ctx.case(('cls', cls, json.dumps(jcfg(cfg), sort_keys=True), NFFT, sampling, x.tobytes(), str(c)), nontrivial=True,
                  sample={'estimator': cls, 'cfg': jcfg(cfg), 'N': N, 'NFFT': NFFT, 'datatype': tag, 'kind': kind, 'c': str(c)})
         rep = {'form': 'class', 'estimator': cls, 'cfg': jcfg(cfg), 'NFFT': NFFT, 'sampling': sampling,
-               'x': vlib.hexv(np.asarray(x, dtype=complex)), 'datatype': tag, 'c': [float(np.real(c)).hex(), float(np.imag(c)).hex()]}
+               'x': vlib.hexv(np.asarray(x, dtype=complex)), 'datatype': tag, 'c': [float(np.real(c)).hex(), float(np.imag(c)).hex()], 'route': route}
         try:
             out0 = class_outputs(cls, x, cfg, NFFT, sampling)
         except Exception:
             ctx.count('search/class/%s/unscaled-raised' % cls); continue
         try:
-            out1 = class_outputs(cls, c * x, cfg, NFFT, sampling)
+            out1 = class_outputs(cls, c * x, cfg, NFFT, sampling, route)
         except Exception as e:
             ctx.violation('scale/%s/raises' % cls, '%s raises %s: %s on c*x although it returns on x' % (cls, type(e).__name__, str(e)[:80]), rep)
             continue
